@@ -2,22 +2,15 @@ From Coq Require Import List Arith Bool ZArith.
 From OV.C30 Require Import Model.
 Import ListNotations.
 Definition P1 := [[OMalloc 0 8; OSend 0 1 0; ODrop 0]; [ODrop 0]].
-(* T0: malloc = start, PMal1, PMal2, PMal3, PMalWr, PMalEnd -> 6 steps; send 1 step *)
-Definition S1 := [0;0;0;0;0;0; 0; 0; 1; 0; 1; 0;1;0;1;0;1;0;1;0;1;0;1;0;1;0;1].
-Definition r1 := sys_run pinned (mk_sys P1) S1.
-Eval vm_compute in (mdes (heap r1) 0, bdes (heap r1) 0, ub (heap r1), bytes (heap r1), quiescent r1, map cur (thr r1)).
-Definition r1f := sys_run fixed (mk_sys P1) S1.
-Eval vm_compute in (mdes (heap r1f) 0, bdes (heap r1f) 0, ub (heap r1f), bytes (heap r1f), quiescent r1f, map cur (thr r1f)).
-(* lost update *)
-Definition P2 := [[OMalloc 0 8]; [OMalloc 0 16]].
-Definition S2 := [0;0;0;1;1;1; 0;1;0;1;0;1].
-Definition r2 := sys_run pinned (mk_sys P2) S2.
-Eval vm_compute in (bytes (heap r2), quiescent r2, ub (heap r2)).
-(* buffer level *)
+Definition obs c := (mdes (heap c) 0, bdes (heap c) 0, ub (heap c), bytes (heap c), quiescent c, map cur (thr c)).
+(* pinned malloc: start PMal1 PMal2 PMal3 PMalWr PMalEnd PMalRet PDrop1 -> 8 steps *)
+Eval vm_compute in obs (sys_run pinned (mk_sys P1) [0;0;0;0;0;0;0;0]).
+Eval vm_compute in obs (sys_run pinned (mk_sys P1) ([0;0;0;0;0;0;0;0] ++ [0; 0; 1; 0; 1; 0;1;0;1;0;1;0;1;0;1;0;1;0;1;0;1])).
+Eval vm_compute in obs (sys_run pinned (mk_sys P1) ([0;0;0;0;0;0;0;0] ++ [0; 0; 1;1;1;1;1;1;1;1; 0])).
 Definition P3 := [[OMalloc 0 8; OSlice 0 1; OSend 1 1 0; ODrop 1; ODrop 0]; [ODrop 0]].
-Definition S3 := [0;0;0;0;0;0; 0;0; 0; 0;0 (* drop 1: start, test: not last *) ; 
-   0;0;0 (* T0 drop 0: start,test,memrel -> PBuf1 *) ; 1;1;1 (* T1: PBuf1 *); 0;1;0;1;0;1;0;1;0;1;0;1].
-Definition r3 := sys_run pinned (mk_sys P3) S3.
-Eval vm_compute in (mdes (heap r3) 0, mdes (heap r3) 1, bdes (heap r3) 0, ub (heap r3), bytes (heap r3), quiescent r3, map cur (thr r3)).
-Eval vm_compute in (msys_run pinned (mk_msys [1]) [0;0;0;0]).
-Eval vm_compute in (msys_run fixed (mk_msys [1]) [0;0;0;0]).
+Definition obs3 c := (mdes (heap c) 0, mdes (heap c) 1, bdes (heap c) 0, ub (heap c), bytes (heap c), quiescent c, map cur (thr c)).
+Eval vm_compute in obs3 (sys_run pinned (mk_sys P3) ([0;0;0;0;0;0;0;0] ++ [0;0; 0; 0;0; 0;0;0; 1;1;1; 0;1;0;1;0;1;0;1;0;1;0;1])).
+Definition P2 := [[OMalloc 0 8]; [OMalloc 0 16]].
+Eval vm_compute in (let c := sys_run pinned (mk_sys P2) [0;0;0;1;1;1; 0;1;0;1;0;1;0;1;0;1;0;1] in (bytes (heap c), quiescent c, ub (heap c))).
+Eval vm_compute in obs (seg_run pinned (mk_sys P1) [0;0;0;0;0;0;1;0;1;0;1;0;1;0;1;0;1]).
+Eval vm_compute in obs (sys_run {| v_test := false; v_bytes := true; v_multi := true |} (mk_sys P1) ([0;0;0;0;0;0;0] ++ [0; 0; 1; 0; 1; 0;1;0;1;0;1;0;1;0;1;0;1;0;1;0;1])).
